@@ -167,6 +167,41 @@ let lit_batch (alpha : z list) (prefix : z list) (k : int) : int * int =
     if k > 0 then List.iter (fun c -> walk (t @ [c]) (k - 1)) alpha in
   walk prefix k; (!n, !h)
 
+(* ---------------------------------------------------------------- the TRANSLATED decoder (Gen/Decoder.v) under the
+   interpreter of Model/C04_dec.v
+     D <hextext> <k> {<bits> <hextoken> <decimal IEEE bits | err>}*k
+                    -> D ok <hex of the payload written> | D err | D panic | D stuck <code> | D nofuel | D oracle-miss
+   the table is strconv.ParseFloat(token, bits), computed by the harness for every run of unquoted-string characters
+   of the text, whole and without its last character *)
+let pf_tbl : (string, string) Hashtbl.t = Hashtbl.create 64
+let pf_miss = ref false
+let str_of_zs (l : z list) : string =
+  let b = Buffer.create 16 in List.iter (fun c -> Buffer.add_char b (Char.chr (int_of_z c land 255))) l; Buffer.contents b
+let pf_oracle (txt : z list) (bits : z) : z option =
+  match Hashtbl.find_opt pf_tbl (string_of_int (int_of_z bits) ^ ":" ^ str_of_zs txt) with
+  | Some "err" -> None
+  | Some d -> Some (z_of_dec d)
+  | None -> pf_miss := true; None
+let rec take_pf k toks = if k = 0 then () else
+  match toks with
+  | bits :: tok :: v :: r ->
+      Hashtbl.replace pf_tbl (bits ^ ":" ^ str_of_zs (zbytes_of_hex tok)) v; take_pf (k - 1) r
+  | _ -> failwith "short float table"
+let hex_of_zs (l : z list) : string =
+  let b = Buffer.create 64 in
+  List.iter (fun x -> Buffer.add_string b (Printf.sprintf "%02x" (int_of_z x land 255))) l;
+  if Buffer.length b = 0 then "-" else Buffer.contents b
+let dec_line (text : z list) : string =
+  pf_miss := false;
+  let r = decode_text pf_oracle decoder_prog text in
+  if !pf_miss then "oracle-miss" else
+  match r with
+  | DOk o -> "ok " ^ hex_of_zs o
+  | DErr -> "err"
+  | DPanic -> "panic"
+  | DStuck w -> "stuck " ^ string_of_int (int_of_z w)
+  | DNoFuel -> "nofuel"
+
 let () = iter_lines (fun line ->
   Hashtbl.reset fm32_tbl; Hashtbl.reset fm64_tbl; Hashtbl.reset pf32_tbl; Hashtbl.reset pf64_tbl;
   match split_ws line with
@@ -191,4 +226,7 @@ let () = iter_lines (fun line ->
   | ["Y"; a; p; k] ->
       let (n, h) = lit_batch (zbytes_of_hex a) (zbytes_of_hex p) (int_of_string k) in
       Printf.printf "Y %d %08x\n" n h
+  | "D" :: h :: k :: toks ->
+      Hashtbl.reset pf_tbl; take_pf (int_of_string k) toks;
+      Printf.printf "D %s\n" (dec_line (zbytes_of_hex h))
   | _ -> Printf.printf "?? %s\n" line)
